@@ -67,36 +67,48 @@ def advanceWithBuf (r : Reader) (n : Nat) : Option Bytes × Reader :=
   | (none, r') => (none, r')
   | (some (), r') => (some ((r'.buf.drop (r'.posInBuf - n)).take n), r')
 
+/-- `copy_within(pos..pos+valid, 0)` and rebasing of `pos_of_buf`, `mark_in_buf`, `pos_in_buf`. -/
+def moveStep (r : Reader) : Reader :=
+  { r with buf := writeAt r.buf 0 ((r.buf.drop r.posInBuf).take r.validLen),
+           posOfBuf := r.posOfBuf + r.posInBuf,
+           markInBuf := r.markInBuf - r.posInBuf,
+           posInBuf := 0 }
+
+/-- `if buf.len() > 4 * (pos + valid + chunk) { truncate(len / 2); shrink_to_fit() }`. -/
+def shrinkStep (r : Reader) : Reader :=
+  if r.buf.length > 4 * (r.posInBuf + r.validLen + r.chunk) then
+    { r with buf := r.buf.take (r.buf.length / 2) }
+  else r
+
+/-- `request_more`, first part: `if realign { copy_within; rebase; maybe shrink }`. -/
+def realignStep (r : Reader) : Reader :=
+  if r.posInBuf > r.chunk * 2 then r.moveStep.shrinkStep else r
+
+/-- `request_more`, second part: `if buf.len() < target_end { buf.resize(target_end, 0) }`. -/
+def growStep (r : Reader) : Reader :=
+  let targetEnd := r.posInBuf + r.validLen + r.chunk
+  if r.buf.length < targetEnd then
+    { r with buf := r.buf ++ List.replicate (targetEnd - r.buf.length) 0 }
+  else r
+
+/-- `request_more`, third part: the retried `read` into `buf[pos+valid .. target_end]`. -/
+def readStep (r : Reader) : Option Bool × Reader :=
+  match r.src.readRetry r.chunk with
+  | (.data [], s) => (some true, { r with src := s, complete := true })
+  | (.data bs, s) =>
+      (some true, { r with src := s,
+                           buf := writeAt r.buf (r.posInBuf + r.validLen) bs,
+                           validLen := r.validLen + bs.length })
+  | (.err, s) => (some true, { r with src := s, ioError := true, complete := true })
+  | (.lie _, s) => (none, { r with src := s })
+  | (.intr, s) => (some true, { r with src := s })  -- unreachable: `readRetry` never yields `intr`
+
 /-- `request_more`.  Result `none`: a panic (`copy_within` out of range, or the load-bearing
 `assert!(n <= chunk_size)`). -/
 def requestMore (r : Reader) : Option Bool × Reader :=
   if r.complete then (some false, r) else
   if r.posInBuf > r.chunk * 2 ∧ r.posInBuf + r.validLen > r.buf.length then (none, r) else
-  let r1 : Reader :=
-    if r.posInBuf > r.chunk * 2 then
-      let moved := writeAt r.buf 0 ((r.buf.drop r.posInBuf).take r.validLen)
-      let r' := { r with buf := moved,
-                         posOfBuf := r.posOfBuf + r.posInBuf,
-                         markInBuf := r.markInBuf - r.posInBuf,
-                         posInBuf := 0 }
-      if r'.buf.length > 4 * (r'.posInBuf + r'.validLen + r'.chunk) then
-        { r' with buf := r'.buf.take (r'.buf.length / 2) }
-      else r'
-    else r
-  let targetEnd := r1.posInBuf + r1.validLen + r1.chunk
-  let r2 : Reader :=
-    if r1.buf.length < targetEnd then
-      { r1 with buf := r1.buf ++ List.replicate (targetEnd - r1.buf.length) 0 }
-    else r1
-  match r2.src.readRetry r2.chunk with
-  | (.data [], s) => (some true, { r2 with src := s, complete := true })
-  | (.data bs, s) =>
-      (some true, { r2 with src := s,
-                            buf := writeAt r2.buf (r2.posInBuf + r2.validLen) bs,
-                            validLen := r2.validLen + bs.length })
-  | (.err, s) => (some true, { r2 with src := s, ioError := true, complete := true })
-  | (.lie _, s) => (none, { r2 with src := s })
-  | (.intr, s) => (some true, { r2 with src := s })  -- unreachable: `readRetry` never yields `intr`
+  r.realignStep.growStep.readStep
 
 /-- Measure that decreases with every productive `request_more`. -/
 def fuel (r : Reader) : Nat :=
@@ -125,6 +137,58 @@ def requestByteAt (r : Reader) (k : Nat) : Option (Option UInt8) × Reader :=
   match requestLoop (r.fuel + 1) r (k + 1) with
   | (none, r') => (none, r')
   | (some (), r') => (some (r'.window[k]?), r')
+
+/-- The safe API of `DeferredReader` as data (property C02's operation alphabet). -/
+inductive Op where
+  | request (n : Nat)
+  | reqAt (k : Nat)
+  | requestMore
+  | advance (n : Nat)
+  | advanceWithBuf (n : Nat)
+  | setMark
+  | setMarkTo (p : Nat)
+  | setChunk (c : Nat)
+  | checkIoError
+deriving Repr, DecidableEq, Inhabited
+
+/-- What a call returned; `panic` = the call panicked (caught by the caller). -/
+inductive Res where
+  | unit
+  | bytes (b : Bytes)
+  | byte (o : Option UInt8)
+  | bool (b : Bool)
+  | panic
+deriving Repr, DecidableEq, Inhabited
+
+def Op.run (r : Reader) : Op → Res × Reader
+  | .request n => match r.request n with
+      | (none, r') => (.panic, r')
+      | (some w, r') => (.bytes w, r')
+  | .reqAt k => match r.requestByteAt k with
+      | (none, r') => (.panic, r')
+      | (some o, r') => (.byte o, r')
+  | .requestMore => match r.requestMore with
+      | (none, r') => (.panic, r')
+      | (some b, r') => (.bool b, r')
+  | .advance n => match r.advance n with
+      | (none, r') => (.panic, r')
+      | (some (), r') => (.unit, r')
+  | .advanceWithBuf n => match r.advanceWithBuf n with
+      | (none, r') => (.panic, r')
+      | (some bs, r') => (.bytes bs, r')
+  | .setMark => (.unit, r.setMark)
+  | .setMarkTo p => (.unit, r.setMarkToPosition p)
+  | .setChunk c => (.unit, r.setChunkSize c)
+  | .checkIoError => match r.checkIoError with
+      | (e, r') => (.bool e, r')
+
+/-- Run a history, collecting the results. -/
+def runAll : List Op → Reader → List Res × Reader
+  | [], r => ([], r)
+  | op :: ops, r =>
+    let (res, r') := op.run r
+    let (rs, r'') := runAll ops r'
+    (res :: rs, r'')
 
 end Reader
 end Flussab
